@@ -124,7 +124,32 @@ def gen_text(rng, progs):
             chars.insert(rng.randint(0, len(chars)), rng.choice(ALPHABET))
     if rng.random() < 0.05:
         chars = list("".join(chars).replace("    ", "\t", 1))
-    return "".join(chars)
+    text = "".join(chars)
+    if rng.random() < 0.12:
+        text = magic_comments(rng, text)
+    return text
+
+
+# comments that some parser MODE or tool gives a meaning to (type comments, coding cookies, shebangs, pragma-like
+# markers): plain ast.parse(text) treats all of them as comments, and so must verify()
+MAGIC_COMMENTS = ["# type: int", "# type: console program", "# type: ignore", "# type: (int) -> int", "# type: list[",
+                  "# -*- coding: utf-8 -*-", "# coding: latin-1", "#!/usr/bin/env python3", "# noqa", "# fmt: off",
+                  "# type:", "#type: str", "# pragma: no cover", "# vim: set fileencoding=utf-8 :"]
+
+
+def magic_comments(rng, text):
+    lines = text.split("\n")
+    for _ in range(rng.randint(1, 2)):
+        c = rng.choice(MAGIC_COMMENTS)
+        i = rng.randrange(len(lines))
+        how = rng.randrange(3)
+        if how == 0 or not lines[i].strip():
+            lines.insert(i, c)                                   # a line of its own (header-style)
+        elif how == 1:
+            lines[i] = lines[i] + "  " + c                       # trailing on a statement / header line
+        else:
+            lines.insert(i, (len(lines[i]) - len(lines[i].lstrip())) * " " + c)   # own line, same indentation
+    return "\n".join(lines)
 
 
 def cpython_outcome(code, filename=FILENAME):
